@@ -30,12 +30,13 @@ type voHist struct {
 	applied []int      // tags of the writes the node has applied, in order
 	nextTag int        // tags are 1, 2, 3 ...
 	conf    []voServer // the configuration the node has to run with
-	walOnly int        // writes applied since the last snapshot (they exist in the log and in the WAL only)
+	last    string     // how the node was opened the last time: "first start", "restart", "recovery"
+	tamper  int        // what happened to the files during the current down time
 }
 
 type voBounds struct {
 	reopens  int   // number of shutdown + open rounds
-	maxOps   int   // operations per running period
+	maxOps   []int // operations per running period (one bound per round)
 	ops      []int // operation kinds offered
 	tampers  []int // what may happen to the files while the node is down
 	peers    []int // peers files offered at each open
@@ -52,6 +53,9 @@ func voCheckTags(id string, got []int, ok bool, want []int) {
 
 // voOpenAgain: one open of an existing data directory and everything that has to hold afterwards.
 func voOpenAgain(w *voWorld, h *voHist, peers int, p int) {
+	vouchedBefore := w.markerVouchesForMainFile()
+	walBefore := w.walHoldsWrites()
+	wasElectable := w.electable
 	s := w.newStore()
 	w.setPeers(peers)
 	w.s = s
@@ -78,12 +82,36 @@ func voOpenAgain(w *voWorld, h *voHist, peers int, p int) {
 
 	if recovering {
 		verifReach("recovery-taken")
-		if h.walOnly > 0 {
-			verifReach("recovery-with-writes-after-the-last-snapshot")
+		if walBefore && vouchedBefore {
+			verifReach("recovery-with-writes-in-the-wal-of-a-vouched-for-file")
+		}
+		if h.last == "recovery" {
+			verifReach("recovery-after-recovery")
+		} else if h.last == "restart" {
+			verifReach("recovery-after-restart")
 		}
 		h.conf = voConfOf(peers, w.selfAddr)
+		h.last = "recovery"
 	} else {
+		if h.last == "recovery" {
+			verifReach("restart-after-recovery")
+		}
+		if !wasElectable {
+			verifReach("node-that-cannot-elect-itself-restarted")
+		}
+		h.last = "restart"
 		verifReach("plain-restart")
+		if vouchedBefore {
+			verifReach("plain-restart-with-vouched-for-file")
+		} else if len(h.applied) > 0 {
+			verifReach("plain-restart-without-usable-marker")
+		}
+	}
+	if vouchedBefore && (h.tamper == voTamperCRC0 || h.tamper == voTamperCheckpoint || h.tamper == voTamperCheckpointSameTime) {
+		verifReach("marker-tampered-file-still-vouched-for")
+	}
+	if verifSymbolic() {
+		w.reachMarkers()
 	}
 
 	// the data
@@ -125,16 +153,13 @@ func voPick(name string, from []int) int {
 // voRun: first start, then b.reopens rounds of (operations, shutdown, tampering, open).
 func voRun(w *voWorld, b voBounds) *voHist {
 	verifPanicsAreViolations()
-	h := &voHist{nextTag: 1}
+	h := &voHist{nextTag: 1, last: "first start"}
 
-	println("run: new store")
 	s := w.newStore()
 	w.s = s
-	println("run: open")
 	err := s.Open()
-	println("run: opened", err == nil)
 	if err != nil {
-		println(err.Error())
+		println("first open:", err.Error())
 	}
 	verifSettle()
 	verifAssert("C33-first-open-succeeds", err == nil)
@@ -145,31 +170,30 @@ func voRun(w *voWorld, b voBounds) *voHist {
 
 	for p := 0; p < b.reopens; p++ {
 		if w.electable {
-			n := verifChoice(verifName("operations-in-period-", p), b.maxOps+1)
+			n := verifChoice(verifName("operations-in-period-", p), b.maxOps[p]+1)
 			for i := 0; i < n; i++ {
 				switch voPick(verifName("operation-", p*10+i), b.ops) {
 				case voOpWrite:
 					w.write(h.nextTag)
 					h.applied = append(h.applied, h.nextTag)
 					h.nextTag++
-					h.walOnly++
 				case voOpNoop:
 					w.noop()
 				case voOpSnapKeep1:
 					w.snapshotNow(1)
-					h.walOnly = 0
 				case voOpSnapKeepAll:
 					w.snapshotNow(0)
-					h.walOnly = 0
 				}
 			}
 		}
 		closeOpt := voPick(verifName("no-snapshot-on-close-", p), b.closeOpt)
 		w.shutdown(closeOpt == 1)
-		if closeOpt == 0 {
-			h.walOnly = 0
+		walBefore := w.walHoldsWrites()
+		h.tamper = voPick(verifName("while-down-", p), b.tampers)
+		verifAssume(w.tamper(h.tamper))
+		if walBefore && (h.tamper == voTamperCheckpoint || h.tamper == voTamperCheckpointSameTime) {
+			verifReach("wal-checkpointed-behind-the-markers-back")
 		}
-		verifAssume(w.tamper(voPick(verifName("while-down-", p), b.tampers)))
 		voOpenAgain(w, h, voPick(verifName("peers-file-", p), b.peers), p)
 	}
 	return h
@@ -181,12 +205,12 @@ var (
 	voAllTamper = []int{voTamperNoMarker, voTamperGarbageMarker, voTamperCRC0, voTamperSize, voTamperMtime, voTamperCheckpointSameTime, voTamperCheckpoint}
 )
 
-// VerifC33bReopen: every history of up to 3 (quick) / 4 (thorough) operations, shutdown with or
+// VerifC33bReopen: every history of up to 3 (quick) / 5 (thorough) operations, shutdown with or
 // without snapshot-on-close, every kind of peers file (or none).
 func VerifC33bReopen() {
-	b := voBounds{reopens: 1, maxOps: 3, ops: voAllOps, tampers: []int{voTamperNone}, peers: voAllPeers, closeOpt: []int{0, 1}}
+	b := voBounds{reopens: 1, maxOps: []int{3}, ops: voAllOps, tampers: []int{voTamperNone}, peers: voAllPeers, closeOpt: []int{0, 1}}
 	if verifTier() == 1 {
-		b.maxOps = 4
+		b.maxOps = []int{5}
 	}
 	w := voNewWorld()
 	defer w.cleanup()
@@ -195,11 +219,10 @@ func VerifC33bReopen() {
 
 // VerifC33bWhileDown: the marker / the SQLite file are tampered with while the node is down.
 func VerifC33bWhileDown() {
-	b := voBounds{reopens: 1, maxOps: 2, ops: []int{voOpWrite, voOpSnapKeep1, voOpSnapKeepAll}, tampers: voAllTamper,
+	b := voBounds{reopens: 1, maxOps: []int{3}, ops: voAllOps, tampers: voAllTamper,
 		peers: []int{voPeersNone, voPeersSelf}, closeOpt: []int{0, 1}}
 	if verifTier() == 1 {
-		b.maxOps = 3
-		b.ops = voAllOps
+		b.maxOps = []int{4}
 		b.peers = []int{voPeersNone, voPeersSelf, voPeersThree, voPeersGarbage}
 	}
 	w := voNewWorld()
@@ -210,12 +233,22 @@ func VerifC33bWhileDown() {
 // VerifC33bTwice: two rounds - what the first open leaves behind is what the second one finds
 // (a restart after a recovery, a recovery after a restart that restored / skipped the restore ...).
 func VerifC33bTwice() {
-	b := voBounds{reopens: 2, maxOps: 1, ops: []int{voOpWrite, voOpSnapKeep1}, tampers: []int{voTamperNone},
+	b := voBounds{reopens: 2, maxOps: []int{3, 1}, ops: []int{voOpWrite, voOpSnapKeep1}, tampers: []int{voTamperNone},
 		peers: []int{voPeersNone, voPeersSelf, voPeersThree}, closeOpt: []int{0, 1}}
 	if verifTier() == 1 {
-		b.maxOps = 2
+		b.maxOps = []int{3, 2}
 		b.ops = []int{voOpWrite, voOpSnapKeep1, voOpSnapKeepAll}
+		b.peers = []int{voPeersNone, voPeersSelf, voPeersThree, voPeersGarbage}
 	}
+	w := voNewWorld()
+	defer w.cleanup()
+	voRun(w, b)
+}
+
+// VerifC33bThrice (thorough): three rounds of short periods.
+func VerifC33bThrice() {
+	b := voBounds{reopens: 3, maxOps: []int{2, 1, 1}, ops: []int{voOpWrite, voOpSnapKeep1}, tampers: []int{voTamperNone},
+		peers: []int{voPeersNone, voPeersSelf}, closeOpt: []int{0, 1}}
 	w := voNewWorld()
 	defer w.cleanup()
 	voRun(w, b)
@@ -223,7 +256,7 @@ func VerifC33bTwice() {
 
 // Vacuity twin: claims that a reopened node never serves anything.
 func VerifC33bTwin() {
-	b := voBounds{reopens: 1, maxOps: 2, ops: []int{voOpWrite, voOpSnapKeep1}, tampers: []int{voTamperNone},
+	b := voBounds{reopens: 1, maxOps: []int{2}, ops: []int{voOpWrite, voOpSnapKeep1}, tampers: []int{voTamperNone},
 		peers: []int{voPeersNone, voPeersSelf}, closeOpt: []int{1}}
 	w := voNewWorld()
 	defer w.cleanup()
